@@ -63,6 +63,8 @@ def tdesign(kind, wire_dir='clockwise', rings=3):
                                           'zr_frac': [0.1, 0.1], 'porosity': [0.2, 0.2]}, **kw)
     if kind == 'B':
         return S.design(2, pd=1.3, oftf=OFTF, clearance='loose', wire_dir=wire_dir)
+    if kind == 'U':      # the same bundle run with the low-fidelity model
+        return S.design(rings, lowfi={'model': 'simple'}, **kw)
     raise ValueError(kind)
 
 
